@@ -100,19 +100,20 @@ type batch struct {
 }
 
 type connAdv struct {
-	b        *batch
-	c        *fakenet.Conn
-	mu       sync.Mutex
-	defr     wire.Deframer
-	pend     []*pq
-	late     []*pq
-	idx      int
-	tr       map[int]int
-	noise    bool
-	lastWire uint16
-	strayN   int
-	since    time.Time
-	permFp   []string
+	b          *batch
+	c          *fakenet.Conn
+	mu         sync.Mutex
+	defr       wire.Deframer
+	pend       []*pq
+	late       []*pq
+	idx        int
+	tr         map[int]int
+	noise      bool
+	lastWire   uint16
+	heldByWire map[uint16]*pq
+	strayN     int
+	since      time.Time
+	permFp     []string
 }
 
 func (b *batch) rnd(n int) int {
@@ -164,9 +165,24 @@ func (a *connAdv) onWrite(c *fakenet.Conn, data []byte) error {
 		}
 		if cl.late {
 			a.late = append(a.late, p)
+			if a.heldByWire == nil {
+				a.heldByWire = map[uint16]*pq{}
+			}
+			a.heldByWire[qi.WireID] = p
 			a.mu.Unlock()
 			cl.seenOne.Do(func() { close(cl.seenCh) })
 			continue
+		}
+		if hp := a.heldByWire[qi.WireID]; hp != nil {
+			select {
+			case <-hp.cl.retCh:
+			default:
+				// the transport reused a wire ID whose query is still unanswered on this
+				// connection: answer the OLDER query now - a correct transport can never
+				// get here, a broken one routes this reply to the newer caller.
+				rep.Count("wire_id_reused_while_still_outstanding", 1)
+				a.sendLocked(hp, false, "collide")
+			}
 		}
 		a.pend = append(a.pend, p)
 		pol := a.b.cfg.Policy
@@ -770,6 +786,35 @@ func main() {
 	if badBatches >= 3 {
 		rep.Inconclusive("stopped early: calls keep failing, the transports do not deliver replies")
 		rep.Finish()
+	}
+	// ---- real upstreams over loopback sockets ----
+	env, err := newLoopEnv()
+	if err != nil {
+		rep.Inconclusive("cannot start loopback servers: %v", err)
+	} else {
+		for round := 0; round < rep.Pick(1, 10); round++ {
+			for _, proto := range []string{"udp", "tcp", "tcp+pipeline", "tls", "tls+pipeline", "https", "quic"} {
+				for _, pol := range []string{"inorder", "window", "dup", "stray", "late"} {
+					multi := proto == "udp" || strings.HasSuffix(proto, "+pipeline")
+					if !multi && (pol == "dup" || pol == "stray") {
+						continue // one reply per query on these transports (property scope / protocol)
+					}
+					for _, callers := range []int{1, 8, 32} {
+						if !rep.Thorough() && callers == 1 && pol != "inorder" {
+							continue
+						}
+						cfg := loopCfg{Proto: proto, Policy: pol, Callers: callers, PerCaller: rep.Pick(6, 12), Procs: []int{2, 16}[rng.Intn(2)], Seed: rng.Int63n(1 << 40)}
+						if pol == "late" {
+							cfg.CancelPct = 25
+						}
+						if badBatches < 3 {
+							env.runLoop(cfg)
+						}
+					}
+				}
+			}
+		}
+		env.close()
 	}
 	if rep.Thorough() {
 		wrapAround(70000, 50, rep.Seed)
